@@ -21,6 +21,11 @@ pub enum WAct {
     Epipe,
     /// try_write while nothing is pending
     WriteIdle,
+    /// try_read with a scripted stream answer (configurations with `max_reads` > 0):
+    /// 0 would-block, 1 end of input, 2 a complete Expect request head (body awaited: the
+    /// connection queues its own 100 Continue), 3 that body, 4 a complete plain request, 5 a
+    /// malformed request line. Requests delivered are popped at once.
+    Read(u8),
 }
 
 fn enc(a: WAct) -> u64 {
@@ -32,6 +37,7 @@ fn enc(a: WAct) -> u64 {
         WAct::Eagain => 5 << 32,
         WAct::Epipe => 6 << 32,
         WAct::WriteIdle => 7 << 32,
+        WAct::Read(k) => 8 << 32 | k as u64,
     }
 }
 fn dec(x: u64) -> WAct {
@@ -43,6 +49,7 @@ fn dec(x: u64) -> WAct {
         5 => WAct::Eagain,
         6 => WAct::Epipe,
         7 => WAct::WriteIdle,
+        8 => WAct::Read(x as u8),
         _ => panic!("bad code"),
     }
 }
@@ -57,7 +64,11 @@ pub struct WCfg {
     pub all_lengths: bool,
     /// two extra body-less 204 responses that differ only in their headers
     pub bodyless_variants: bool,
+    /// try_read calls interleaved with the enqueues and writes (0 = none)
+    pub max_reads: usize,
 }
+
+pub const EXPECT_HEAD: &[u8] = b"PUT /e HTTP/1.1\r\nExpect: 100-continue\r\nContent-Length: 2\r\n\r\n";
 
 impl WCfg {
     pub fn response(&self, i: u8) -> Response {
@@ -79,7 +90,7 @@ impl WCfg {
         r
     }
     fn to_json(&self) -> Value {
-        json!({"label": self.label, "bodies": self.bodies, "max_enqueues": self.max_enqueues, "all_lengths": self.all_lengths, "bodyless_variants": self.bodyless_variants})
+        json!({"label": self.label, "bodies": self.bodies, "max_enqueues": self.max_enqueues, "all_lengths": self.all_lengths, "bodyless_variants": self.bodyless_variants, "max_reads": self.max_reads})
     }
     pub fn from_json(v: &Value) -> WCfg {
         WCfg {
@@ -88,11 +99,12 @@ impl WCfg {
             max_enqueues: v["max_enqueues"].as_u64().unwrap() as usize,
             all_lengths: v["all_lengths"].as_bool().unwrap(),
             bodyless_variants: v["bodyless_variants"].as_bool().unwrap_or(false),
+            max_reads: v["max_reads"].as_u64().unwrap_or(0) as usize,
         }
     }
 }
 
-pub const FACTS: [&str; 8] = [
+pub const FACTS: [&str; 11] = [
     "short_write",
     "enqueue_while_partially_written",
     "eintr_with_partial_buffer",
@@ -101,6 +113,9 @@ pub const FACTS: [&str; 8] = [
     "complete_write",
     "enqueue_after_discard",
     "zero_length_write_answer",
+    "read_with_partially_written_head",
+    "own_100_continue_queued_behind_pending_output",
+    "end_of_input_with_pending_output",
 ];
 
 struct WExec<'a> {
@@ -112,6 +127,9 @@ struct WExec<'a> {
     head_started: bool,
     expected_accepted: Vec<u8>,
     enqueues: usize,
+    reads: usize,
+    /// the scripted input stands inside a request: the Expect request's body is awaited
+    awaiting_body: bool,
     discarded_once: bool,
     violation: Option<(String, String)>,
     facts: u64,
@@ -131,6 +149,8 @@ impl<'a> WExec<'a> {
             head_started: false,
             expected_accepted: vec![],
             enqueues: 0,
+            reads: 0,
+            awaiting_body: false,
             discarded_once: false,
             violation: None,
             facts: 0,
@@ -178,8 +198,86 @@ impl<'a> WExec<'a> {
                 }
                 self.check_pending("after enqueue");
             }
+            WAct::Read(k) => self.read(k),
             _ => self.write(a),
         }
+    }
+    fn read(&mut self, kind: u8) {
+        let ans = match kind {
+            0 => crate::stream::ReadAns::Errno(libc::EAGAIN),
+            1 => crate::stream::ReadAns::Eof(vec![]),
+            2 => crate::stream::ReadAns::Data(EXPECT_HEAD.to_vec(), vec![]),
+            3 => crate::stream::ReadAns::Data(b"ab".to_vec(), vec![]),
+            4 => crate::stream::ReadAns::Data(b"GET /g HTTP/1.0\r\n\r\n".to_vec(), vec![]),
+            _ => crate::stream::ReadAns::Data(b"BAD\r\n".to_vec(), vec![]),
+        };
+        self.check_pending("before try_read");
+        if self.violation.is_some() {
+            return;
+        }
+        {
+            let mut c = self.ctl.borrow_mut();
+            c.next_read = Some(ans);
+            c.next_write = None;
+            c.write_default_all = false;
+            c.write_calls = 0;
+        }
+        if self.head_started {
+            self.facts |= 1 << 8;
+        }
+        let r = util::catch(|| self.conn.try_read());
+        let rs = match &r {
+            Err(p) => format!("PANIC({})", p),
+            Ok(Ok(())) => "Ok".to_string(),
+            Ok(Err(e)) => format!("{:?}", e),
+        };
+        self.reads += 1;
+        let mut popped = 0;
+        if r.is_ok() {
+            while let Ok(Some(_)) = util::catch(|| self.conn.pop_parsed_request()) {
+                popped += 1;
+            }
+        }
+        self.obs.extend_from_slice(format!("read{}->{}/{};", kind, rs, popped).as_bytes());
+        if let Err(p) = &r {
+            return self.fail("panic", format!("try_read panicked: {}", p));
+        }
+        match kind {
+            2 | 3 if !matches!(r, Ok(Ok(()))) => {
+                // whether this input is acceptable is C02's business, not this check's
+                return self.fail("harness", format!("the scripted request was not accepted: {}", rs));
+            }
+            2 => {
+                // the connection answers the expectation itself: its 100 Continue joins the
+                // queue behind everything enqueued before (C13 decides when it is due; here it
+                // is part of "the enqueued responses in enqueue order")
+                let mut bytes = vec![];
+                Response::new(Version::Http11, StatusCode::Continue).write_all(&mut bytes).unwrap();
+                if !self.refq.is_empty() {
+                    self.facts |= 1 << 9;
+                }
+                self.refq.push_back(bytes);
+                self.awaiting_body = true;
+            }
+            3 => self.awaiting_body = false,
+            1 => {
+                if !self.refq.is_empty() {
+                    self.facts |= 1 << 10;
+                }
+            }
+            _ => {}
+        }
+        if self.tracing {
+            self.steps.push(json!({"action": format!("Read(kind {})", kind), "try_read": rs, "requests_popped": popped, "reference_queue_lens": self.refq.iter().map(|q| q.len()).collect::<Vec<_>>()}));
+        }
+        // reading never writes, loses or reorders output: only a failed write discards it
+        let wcalls = self.ctl.borrow().write_calls;
+        let acc = self.ctl.borrow().accepted.clone();
+        let _ = wcalls;
+        if acc != self.expected_accepted {
+            return self.fail("accepted-bytes", format!("try_read made the stream accept {} bytes that are not the expected prefix of the enqueued responses", acc.len()));
+        }
+        self.check_pending("after try_read");
     }
     fn write(&mut self, a: WAct) {
         let ans = match a {
@@ -324,6 +422,12 @@ impl<'a> WExec<'a> {
                 v.push(WAct::Enqueue(i as u8));
             }
         }
+        if self.reads < self.cfg.max_reads {
+            let kinds: &[u8] = if self.awaiting_body { &[0, 1, 3] } else { &[0, 1, 2, 4, 5] };
+            for k in kinds {
+                v.push(WAct::Read(*k));
+            }
+        }
         match self.refq.front() {
             None => v.push(WAct::WriteIdle),
             Some(h) => {
@@ -363,7 +467,7 @@ impl<'a> WExec<'a> {
             r.extend_from_slice(&(q.len() as u32).to_le_bytes());
             r.extend_from_slice(q);
         }
-        util::hash128(&[&d, &r, &[self.enqueues as u8, self.head_started as u8, self.discarded_once as u8]])
+        util::hash128(&[&d, &r, &[self.enqueues as u8, self.head_started as u8, self.discarded_once as u8, self.reads as u8, self.awaiting_body as u8]])
     }
 }
 
